@@ -43,7 +43,11 @@ type Ledger struct {
 	// FailRegisterOnce[name]: the next Register call of that party fails with a
 	// transient error (the transaction did not go through), then the entry is removed.
 	FailRegisterOnce map[string]bool
-	ExtendOnRefute bool          // false: a refutation does not extend the challenge period
+	// HonourCtx: a Register call whose context is done by the time the
+	// transaction would be included gives up with the context's error and
+	// registers nothing (a backend waiting for its transaction to be mined)
+	HonourCtx      bool
+	ExtendOnRefute bool // false: a refutation does not extend the challenge period
 }
 
 // DelivRec records the delivery of an event to a subscription.
@@ -480,6 +484,14 @@ func (p *Party) Register(ctx context.Context, req channel.AdjudicatorReq, subs [
 	name := l.S.ChanName(id)
 	issued := l.S.Now()
 	l.S.Sleep("ledger:Register:"+p.Name+":"+name, l.MinLat, l.MaxLat)
+	if l.HonourCtx && ctx.Err() != nil {
+		l.S.Count("fault.ledger_register_gave_up_on_done_context", 1)
+		l.S.Event(p.Name, "ledger:Register", name+" caller's context is done: "+ctx.Err().Error())
+		l.mu.Lock()
+		l.record(LedgerCall{Who: p.Name, Op: "Register", Ch: id, Version: req.Tx.Version, Err: ctx.Err().Error()})
+		l.mu.Unlock()
+		return ctx.Err()
+	}
 	l.mu.Lock()
 	once := l.FailRegisterOnce[p.Name]
 	if once {
